@@ -189,7 +189,16 @@ func c09Job(raw json.RawMessage) (interface{}, error) {
 	base, bres := c09Run(a, a.Path, false)
 	out.Runs++
 	if bres.Verdict != vrt.VOK || !base.ok {
-		if v := VerdictViolation(&bres, "C09", "state"); v != nil && len(a.Path) == 0 {
+		failmany := false
+		for _, o := range a.Path {
+			if o.K == "FAILMANY" {
+				failmany = true
+			}
+		}
+		if v := VerdictViolation(&bres, "C09", "state"); v != nil && (len(a.Path) == 0 || failmany) {
+			// (a crash or hang while many refused requests follow each other is what they left behind)
+			v.Detail = "state reached by: " + fsx.Hist(a.Path) + "\n" + v.Detail
+			v.Replay = map[string]interface{}{"job": "c09", "arg": a}
 			out.Viols = append(out.Viols, v)
 		}
 		return out, nil // the state itself is not reachable cleanly: other checks report that
@@ -307,6 +316,9 @@ func C09(r *report.Report, tier string) {
 			jobs = append(jobs, c09Arg{Disk: d, Path: append(append([]fsx.Op{}, fullDir...), extra...), L: L})
 		}
 	}
+	// 150 requests that fail after modifying something, in one server instance (every abort drops cached inodes)
+	jobs = append(jobs, c09Arg{Disk: 3000, Path: []fsx.Op{{K: "MKDIR", H: "root", N: "d"}, {K: "CREATE", H: "root", N: "a"}, {K: "FAILMANY", H: "root", Cnt: 150}}, L: L},
+		c09Arg{Disk: 3000, Path: []fsx.Op{{K: "MKDIR", H: "root", N: "d"}, {K: "CREATE", H: "root/d", N: "x"}, {K: "FAILMANY", H: "root/d", Cnt: 150}, {K: "CREATE", H: "root", N: "a"}}, L: L})
 	// the inode table exhausted (prepared state "inofull": 32765 files): requests that need an inode fail; with one
 	// number given back, the second of two; one job per candidate
 	iL := 0
